@@ -41,6 +41,7 @@ def run(repo, res, tier):
     res.rule("CLOSED", "Interval predicates are closed and compare the right operands", 5)
     res.rule("IMAGE", "interval arithmetic yields the image set with start <= end through the checking constructor", 8)
     res.rule("REJECT", "start > end is rejected; AngleInterval normalises and bounds the length", 5)
+    res.rule("SUBSET", "AngleInterval.contains(interval) compares start offset + argument length with the own length", 1)
     mod = repo.mod(U)
     iv = repo.cls(U, "Interval")
     av = repo.cls(U, "AngleInterval")
@@ -96,6 +97,41 @@ def run(repo, res, tier):
                 )
     if n_cmp < 2:
         raise AnalysisError("AngleInterval containment comparisons not found")
+
+    # ------------------------------------------------------------- SUBSET
+    from .c04 import inequalities, linear
+
+    fn = av.methods["contains"]
+    op = fn.args.args[1].arg
+    n_sub = 0
+    for r in walk_no_nested(fn):
+        if not (isinstance(r, ast.Return) and r.value is not None):
+            continue
+        g = dominating_guards(mod, r, stop=fn)
+        if any(pol and isinstance(t, ast.Call) and call_name(t) == "isinstance" and norm(t.args[0]) == op and "Interval" not in norm(t.args[1]) for t, pol in g):
+            continue  # the scalar branch
+        n_sub += 1
+
+        def atoms(e):
+            t = norm(e)
+            if isinstance(e, ast.Call) and norm(e.func) == "self._offset" and len(e.args) == 1 and norm(e.args[0]) in ("%s.start" % op, "%s._start" % op):
+                return "o"
+            if t in ("%s.length" % op,):
+                return "L2"
+            if t in ("self.length",):
+                return "L1"
+            if t in ("%s.end" % op, "%s._end" % op):
+                return "e2"
+            if t in ("%s.start" % op, "%s._start" % op):
+                return "s2"
+            return None
+
+        facts = inequalities(r.value, True, atoms) if isinstance(r.value, ast.Compare) else []
+        want = [{"L1": 1, "o": -1, "L2": -1}, {"L1": 1, "o": -1, "e2": -1, "s2": 1}]
+        ok = any(f in want and not strict for f, strict in facts)
+        res.check("SUBSET", "AngleInterval.contains(interval): offset(start) + length(arg) <= own length", ok, mod, r, "AngleInterval.contains: %s" % norm(r)[:110], "containment of an interval is not decided from where it starts plus how long it is (e.g. only its two end points are tested): an argument that runs across the gap of the interval is reported as contained although its middle is outside", qualname="AngleInterval.contains")
+    if n_sub < 1:
+        raise AnalysisError("AngleInterval.contains: branch for interval arguments not found")
 
     # ------------------------------------------------------------- DISPATCH
     for cls in (iv, av):
